@@ -2291,3 +2291,41 @@ mod tests {
         assert_eq!(queue.revisions[1].load(), Revision::start());
     }
 }
+
+/// Verification hook H3: the retention queue on plain integers.
+#[cfg(salsa_rs_salsa_verif)]
+pub(crate) mod verif_k {
+    use std::num::NonZeroUsize;
+
+    use super::RevisionQueue;
+    use crate::Revision;
+
+    fn queue_with(values: &[usize]) -> RevisionQueue {
+        let queue = RevisionQueue::new(NonZeroUsize::new(values.len()).unwrap());
+        for (slot, value) in queue.revisions.iter().zip(values) {
+            slot.store(Revision::from(*value));
+        }
+        queue
+    }
+    fn contents(queue: &RevisionQueue) -> Vec<usize> {
+        queue
+            .revisions
+            .iter()
+            .map(|revision| revision.load().as_usize())
+            .collect()
+    }
+    pub(crate) fn vk_immortal() -> usize {
+        super::IMMORTAL.get()
+    }
+    pub(crate) fn vk_record(values: &[usize], revision: usize) -> Vec<usize> {
+        let queue = queue_with(values);
+        queue.record(Revision::from(revision));
+        contents(&queue)
+    }
+    pub(crate) fn vk_is_stale(values: &[usize], revision: usize) -> bool {
+        queue_with(values).is_stale(Revision::from(revision))
+    }
+    pub(crate) fn vk_is_primed(values: &[usize]) -> bool {
+        queue_with(values).is_primed()
+    }
+}
